@@ -465,6 +465,9 @@ def phcrun_reqs(seed, thorough):
     add('EC2A'); add('1234'); add('c0de'); add('PHC0', stratum=3); add('PHC0', stratum=0); add('PHC0', ip4=0x50484330)
     add('GPS'); add('P'); add(' PHC'); add('PHC '); add('PHC0', phc=1); add('PHC0', phc=2**40)
     add('PHC00'); add('\u00a9'); add('PHC0', chrony=0); add('PH', chrony=_pack(b'PH\0\0'))
+    # an attribute that is no integer: with the PHC as reference the report must not become a measurement (the release binary is what runs)
+    for k in (range(5) if thorough else (1, 2, 3)): add('PHC0', phc=f'bad{k}')
+    add('PHC0', chrony=_pack(b'PHC1'), phc='bad1')
     alphabet = b'0123456789abcdefABCDEFGHIJKLMNOPQRSTUVWXYZghijklmnopqrstuvwxyz _.'   # no '-': clap would read a leading one as an option
     for _ in range(60 if thorough else 8):
         bs = bytes(rnd.choice(alphabet) for _ in range(rnd.choice((4, 4, 4, 3, 2))))
@@ -480,7 +483,7 @@ PHCRUN_RULE = (" || `phcrun` lines (tools/phc_run.sh): the RELEASE daemon binary
                "chronyd reports one fixed synchronised measurement with a given reference id / stratum / source address; the bound of the first trusted "
                "record must contain the PHC value exactly when the string's big-endian packing (refidOf) equals the reported id: same and different ids, "
                "lower-case and hexadecimal-looking ids, ids of 1-3 characters, ids with blanks, other strata, a source address that aliases the id, "
-               "strings that are no reference id (must be refused), plus seeded ids compared with their exact packing, their other-case spelling and a one-bit neighbour")
+               "strings that are no reference id (must be refused), an attribute that is no integer (empty, N/A, unit suffix, NUL padding, hexadecimal: with the PHC as reference no trusted record may appear, with another reference the plain bound), plus seeded ids compared with their exact packing, their other-case spelling and a one-bit neighbour")
 for _p in ('C13', 'C07', 'C01'):
     _c = PROPS[_p]
     _c['gens'] = (lambda old: lambda seed, th: old(seed, th) + [lambda: phcrun_exec(phcrun_reqs(seed, th))])(_c['gens'])
@@ -499,7 +502,7 @@ for _p in ():
 # ------------------------------------------------------------------ translation tie (Rust AST regenerated by /verif/translator)
 CODE_TIE = {'C05': ['Client', 'Now'], 'C06': ['Client', 'Now'], 'C14': ['Client', 'Now', 'Errors'],
             'C01': ['Client', 'Updater', 'Extract', 'Drift', 'Poller', 'Dispatch', 'Now', 'Errors'],
-            'C07': ['Extract'], 'C10': ['Extract', 'Leap'], 'C08': ['Updater', 'Dispatch'], 'C09': ['Updater', 'Dispatch'], 'C19': ['Drift'],
+            'C07': ['Extract'], 'C10': ['Extract', 'Leap', 'Poller'], 'C08': ['Updater', 'Dispatch'], 'C09': ['Updater', 'Dispatch'], 'C19': ['Drift'],
             'C02': ['Seqlock'], 'C03': ['Seqlock'], 'C04': ['Seqlock', 'Header', 'WriterNew'], 'C11': ['Seqlock'], 'C18': ['Seqlock'],
             'C16': ['Header', 'WriterNew', 'Errors'], 'C17': ['Header', 'Errors'], 'C12': ['Poller', 'Now', 'Errors'], 'C13': ['Poller', 'Dispatch'],
             'C15': ['Threads', 'Workers']}
